@@ -216,6 +216,7 @@ class Builder:
         self.shared_reads = []    # (location key, value Node, op, ast) reads of globals / shared objects
         self.default_cache = {}
         self.default_nodes = {}   # nid -> (FuncInfo, parameter name) of default-argument objects
+        self.call_log = []          # (call ast, callee FuncInfo, argument Nodes, caller FuncInfo)
         self.view_mutated = set()   # nids of arrays mutated in place through a view (not modelled)
         self.mutations = []   # (kind, receiver Node, ast node, FuncInfo): in-place updates
         self.assign_log = []  # (FuncInfo, ast.Name target, Node) for every plain-name assignment
@@ -987,6 +988,7 @@ class Builder:
             return self.mk('param', self.opaque[clo.func.fullname], at=at)
         if clo.func is not None:
             self.inlined.add(clo.func.fullname)
+            self.call_log.append((at, clo.func, list(args), self.frame.func if self.frame is not None else None))
         a = node.args
         params = [p.arg for p in a.posonlyargs + a.args]
         locals_ = {}
